@@ -36,6 +36,7 @@ HAZARDS = [
     "bad_urls",
 ]
 INV_HAZARDS = ["inv_missing", "inv_dir", "inv_bad_header", "inv_not_compressed", "inv_corrupt_zlib", "inv_bad_utf8",
+               "inv_garbage_body", "inv_garbage_body",
                "inv_truncated", "inv_empty", "inv_ok", "inv_ok", "inv_ok"]
 
 
@@ -215,6 +216,10 @@ def _inv_bytes(r, h: str, good: bytes):
     if h == "inv_not_compressed":
         return (b"# Sphinx inventory version 2\n# Project: p\n# Version: 1\n# The remainder of this file is "
                 b"compressed using zlib.\nplain text not zlib\n")
+    if h == "inv_garbage_body":  # an intact v2 header followed by bytes that are not a zlib stream at all
+        return (b"# Sphinx inventory version 2\n# Project: p\n# Version: 1\n# The remainder of this file is "
+                b"compressed using zlib.\n" + r.choice([b"this is not zlib data\n" * 3, b"\x00\x01\x02\x03" * 8,
+                                                           b"<html><body>404</body></html>\n"]))
     if h == "inv_corrupt_zlib":
         cut = max(0, len(good) - 12)
         return good[:cut] + bytes((b ^ 0x5A) for b in good[cut:])
